@@ -1814,14 +1814,17 @@ func realCase(e *lp.Exec, c cfg) {
 		return total() >= want
 	}
 	idle := func() {
-		// no input pending: the readers must be idle (generous bound: half a core over the window; re-measured once)
-		for try := 0; try < 2; try++ {
-			c0 := cpuTime()
+		// no input pending: the readers must be idle. A spinning goroutine burns a whole core for as long as it is looked at,
+		// so the bound is relative to the time that REALLY elapsed (a sleep oversleeps on a loaded machine, and the process's
+		// background work grows with it): half a core in each of four consecutive windows; one window below that acquits
+		for try := 0; try < 4; try++ {
+			c0, w0 := cpuTime(), time.Now()
 			time.Sleep(60 * time.Millisecond)
-			if used := cpuTime() - c0; used < 30*time.Millisecond {
+			used, el := cpuTime()-c0, time.Since(w0)
+			if used < el/2 {
 				return
-			} else if try == 1 {
-				e.Oracle("c02-spin", "%s: %v CPU in a 60ms window with no input pending", tag, used)
+			} else if try == 3 {
+				e.Oracle("c02-spin", "%s: %v CPU in a %v window with no input pending (fourth window in a row above half a core)", tag, used, el.Round(time.Millisecond))
 			}
 		}
 	}
